@@ -56,7 +56,7 @@ class MethodRef:
 PY_BUILTINS = {"len", "min", "max", "abs", "sum", "any", "all", "set", "dict", "list", "tuple", "frozenset", "int",
                "float", "bool", "str", "isinstance", "sorted", "range", "enumerate", "zip", "next", "iter", "repr",
                "print", "type", "id", "hash", "reversed", "getattr", "hasattr", "callable", "super", "issubclass",
-               "round", "divmod", "ord", "chr", "object", "bytes", "complex", "vars", "map", "filter"}
+               "round", "divmod", "ord", "chr", "object", "bytes", "complex", "vars", "map", "filter", "pow"}
 SPEC_BUILTINS = {"old", "implies", "iff", "keys", "values_of", "isnan", "isinf", "isfinite", "card", "every",
                  "subset", "forall", "exists", "same", "typeis", "fresh_ref", "disjoint", "seq_eq", "union_all",
                  "real", "rank", "ite", "inrange", "allocated", "unchanged", "floor", "now"}
@@ -426,6 +426,9 @@ class ExprMixin:
                         try:
                             if isinstance(a.t, TBool) and isinstance(pv.t, TBool):
                                 merged = mk_bool(z3.And(a.z, pv.z) if is_and else z3.Or(a.z, pv.z))
+                            elif not is_and and isinstance(a.t, TOpt) and not isinstance(pv.t, (TOpt, TNone)):
+                                # `x or default` with an Optional x: a truthy x is not None
+                                merged = ite(cont, pv, opt_val(a))
                             else:
                                 merged = ite(cont, pv, a)
                             yield self._carry_facts(st1, info, st_guard, cont), merged
@@ -457,6 +460,9 @@ class ExprMixin:
         if evaluated.ghost.get("$clock") is not None and evaluated.ghost.get("$clock") is not base.ghost.get("$clock"):
             out = out.fork()
             out.ghost["$clock"] = evaluated.ghost["$clock"]
+        if len(evaluated.ghost.get("$cards", ())) > len(base.ghost.get("$cards", ())):
+            out = out.fork()
+            out.ghost["$cards"] = evaluated.ghost["$cards"]
         return out
 
     def opq_may_raise(self, st, what):
@@ -588,6 +594,11 @@ class ExprMixin:
             self.opq_may_raise(st, "arithmetic on a value of unknown type")
             yield st, fresh(TOpaque("arith"), "opq")
             return
+        if isinstance(ta, TBool) and isinstance(tb, TBool) and isinstance(op, (ast.BitOr, ast.BitAnd, ast.BitXor)):
+            # bool | bool, bool & bool, bool ^ bool are bools
+            f = {ast.BitOr: z3.Or, ast.BitAnd: z3.And, ast.BitXor: z3.Xor}[type(op)]
+            yield st, mk_bool(f(a.z, b.z))
+            return
         if not (vals.is_num(ta) and vals.is_num(tb)):
             raise EngineError(f"binary {type(op).__name__} on {ta} and {tb}: {ast.unparse(node)}")
         if isinstance(ta, TFP) or isinstance(tb, TFP):
@@ -689,7 +700,7 @@ class ExprMixin:
                 pv, info = self.ev_pure(e.comparators[i], st_g)
                 if pv is None:
                     raise EngineError("chained comparison with effects")
-                right, st2 = pv, st
+                right, st2 = pv, self._carry_facts(st, info, st_g, z3.And(*acc))
             else:
                 res = list(self.ev(e.comparators[i], st))
                 if len(res) != 1:
@@ -817,6 +828,14 @@ class ExprMixin:
             return opt_isnone(b) if isinstance(b.t, TOpt) else z3.BoolVal(False)
         if isinstance(b.t, TNone):
             return opt_isnone(a) if isinstance(a.t, TOpt) else z3.BoolVal(False)
+        ia, ib = (a.t.inner if isinstance(a.t, TOpt) else a.t), (b.t.inner if isinstance(b.t, TOpt) else b.t)
+        if isinstance(ia, TRef) and isinstance(ib, TRef) and ia.cls != ib.cls:
+            # references typed with different (possibly related) classes: identity of the reference values
+            na = opt_isnone(a) if isinstance(a.t, TOpt) else z3.BoolVal(False)
+            nb = opt_isnone(b) if isinstance(b.t, TOpt) else z3.BoolVal(False)
+            ra = (opt_val(a) if isinstance(a.t, TOpt) else a).z
+            rb = (opt_val(b) if isinstance(b.t, TOpt) else b).z
+            return z3.Or(z3.And(na, nb), z3.And(z3.Not(na), z3.Not(nb), ra == rb))
         try:
             return same(a, b)
         except EngineError:
@@ -831,6 +850,12 @@ class ExprMixin:
                 con = self.ct.contract_for(ta.cls, "__eq__")[1]
                 if con is None:
                     raise EngineError(f"{ta.cls}.__eq__ is user-defined; give it a contract or mark identity_eq")
+                if isinstance(a.t, TOpt):
+                    raise EngineError(f"== on an Optional[{ta.cls}] with a user-defined __eq__")
+                fr = FuncRef(self.ct.classes[m[0]].module, f"{m[0]}.{m[1].name}", bound_self=a, cls=ta.cls)
+                for st1, r in self.call_function(st, fr, [b], {}, node):
+                    yield st1, truth(self.as_value(r))
+                return
         if isinstance(a.t, (TFloat, TFP)) or isinstance(b.t, (TFloat, TFP)):
             if vals.is_num(a.t) and vals.is_num(b.t):
                 if isinstance(a.t, TFP) or isinstance(b.t, TFP):
